@@ -386,6 +386,28 @@ def r08_10(run):
         run.ob("R08.10", loc(fi, c), fi.short, "the in-place kernel call runs under mem_guard_off", ok,
                "the kernel's operands/target are not locked by the kernel call itself (they are force-locked afterwards)" if ok else
                "the kernel call locks its operands and out= target through the normal path as well: each array is counted twice / the target's base is locked before the write")
+    from . import opcontract
+    from .c12 import interp
+    from ..absint import tensor_params_of
+    I = interp(run)
+    for s in opcontract.op_sites(run):
+        if s.fi.qualname != fi.qualname or s.op_cls is None or s.call is k:
+            continue
+        m = s.op_cls.lookup_method("__call__")
+        tps = tensor_params_of(facts(run), m.cls, m)
+        ret = I.analyse(m, tensor_params=tps, self_cls=s.op_cls).returns
+        operand_only = bool(ret.origins) and all(o.startswith("P:") and o.endswith(".data") and o[2:].split(".")[0] in tps for o, _ in ret.origins)
+        p = getattr(s.call, "_parent", None)
+        unguarded = False
+        while p is not None and p is not fi.node:
+            if isinstance(p, ast.With) and any(norm(i.context_expr).endswith("mem_guard_off") for i in p.items):
+                unguarded = True
+            p = getattr(p, "_parent", None)
+        ok = operand_only or not unguarded
+        run.ob("R08.10", loc(fi, s.call), fi.short, f"internal op {s.op_cls.name}: runs unguarded only if its output is an operand's (already locked) array", ok,
+               ("output is an operand's own array" if operand_only else "runs with the guard in force: inputs and the new output array are locked and finalized")
+               if ok else f"{s.op_cls.name} brings a new array into the graph (origins {sorted(o for o, _ in ret.origins)}) but runs under mem_guard_off: "
+               "that array - the mutated base - is never locked by its own op")
     fl = [c for c in calls_named(fi.node, "force_lock_tensor_and_creators") if c.args and norm(c.args[0]) == res]
     ns = {cfg.stmt_node_containing(c) for c in fl}
     ns.discard(None)
@@ -515,6 +537,15 @@ def r08_5(run):
     run.ob("R08.5", loc(lockf, lockf.node), lockf.short, "every return either counted the array or took the read-only early exit",
            w is None, "graph-cut over counter stores and the `not force_lock and not writeable` test" if w is None else
            "an array can be returned as locked without being counted", path=cfg.path_text(w) if w else None)
+    # a newly tracked array starts at exactly one holder (a stale count left under a recycled id() must not be inherited)
+    cfgn = build_cfg(run, lockf, {"array_is_tracked(arr)": False, "not array_is_tracked(arr)": True})
+    first = [n for n in own_nodes(lockf.node) if isinstance(n, (ast.Assign, ast.AugAssign)) and any(
+        isinstance(t, ast.Subscript) and dotted(t.value) == "_array_counter" for t in (n.targets if isinstance(n, ast.Assign) else [n.target]))
+        and cfgn.node_for(n) is not None and cfgn.reachable(cfgn.node_for(n))]
+    ok = bool(first) and all(isinstance(n, ast.Assign) and isinstance(n.value, ast.Constant) and n.value.value == 1 for n in first)
+    run.ob("R08.5", loc(lockf, first[0] if first else lockf.node), lockf.short, "an untracked array's counter is *set* to 1 (not incremented)", ok,
+           "`_array_counter[id] = 1` on the not-tracked path" if ok else
+           "the first lock increments whatever count is stored under this id(): a stale entry left by a collected array keeps the new array locked forever")
     # the flag is cleared on every counted path
     clr = {cfg.node_for(n) for n in own_nodes(lockf.node) if isinstance(n, ast.Assign)
            and any(isinstance(t, ast.Attribute) and t.attr == "writeable" for t in n.targets)
@@ -553,6 +584,26 @@ def r08_6(run):
                "the operation's output array can be returned unlocked while the graph is live")
     if not done:
         raise AnalysisError(f"{fi.short}: no tracked return found")
+    # an ndarray out= target that is a view: its base is locked under exactly `out is not None and <result>.data.base is not None`
+    for r in rets:
+        res = r.value.id
+        if res == "out":
+            continue
+        base_locks = [c for c in calls_named(fi.node, "lock_arr_writeability") if c.args and norm(c.args[0]) == f"{res}.data.base"]
+        if not base_locks:
+            run.ob("R08.6", loc(fi, r), fi.short, f"base of an out= view target is locked", False,
+                   "no lock_arr_writeability(<result>.data.base): writing into a view leaves its owner writeable inside a live graph")
+            continue
+        cfg2 = build_cfg(run, fi, dict(assume, **{"out is not None": True, f"{res}.data.base is not None": True,
+                                                   f"out is not None and {res}.data.base is not None": True}))
+        ns = {cfg2.stmt_node_containing(c) for c in base_locks}
+        ns.discard(None)
+        rn2 = cfg2.node_for(r)
+        ok = bool(ns) and rn2 is not None and cfg2.set_dominates(ns, rn2)
+        run.ob("R08.6", loc(fi, base_locks[0]), fi.short, f"base of an out= view target is locked whenever out is given and the result has a base", ok,
+               "under {out is not None, result.data.base is not None} the base lock cuts every path to the return" if ok else
+               "an extra condition can skip the lock of the out= target's base (e.g. 'already tracked'): its count is then one short and the "
+               "first graph to be cleared unlocks it under the op that wrote into the view")
 
 
 def check(run):
